@@ -44,6 +44,10 @@ import (
 // without any config file (nocfg) and with pages that have no front-matter; a key that no source
 // defines is then only checked for "shows none of the case's values".
 //
+// Fill kinds "nil" (untyped nil), "typed-nil-map" and "empty-map" pass no data: the Fill sets no
+// call-layer key, so the config files show through for every key the node never had in its call
+// layer, and later Assigns are that node's own.
+//
 // After every operation every live node is observed (Get of each key, and a render: Render for
 // loaded nodes, RenderString for the others) and
 //   - each known key must show the model's value in Get, {{ k }}, {{ k + '' }}, :data-x="k" and
@@ -61,7 +65,7 @@ type Op struct {
 	Op   string   `json:"op"`             // new | load | fill | assign | render | get
 	Node int      `json:"node"`           // live node the op is applied to (0 = root); taken modulo the live count
 	Page int      `json:"page,omitempty"` // load: which page
-	Kind string   `json:"kind,omitempty"` // fill: map | struct | ptr | shared (a map object of the case's pool)
+	Kind string   `json:"kind,omitempty"` // fill: map | struct | ptr | shared (a map object of the case's pool) | nil (untyped nil) | typed-nil-map (map[string]any(nil)) | empty-map
 	Pool int      `json:"pool,omitempty"` // fill/shared: which pool map
 	Keys []string `json:"keys,omitempty"` // fill: the keys the argument defines
 	Key  string   `json:"key,omitempty"`  // assign / get
@@ -116,7 +120,7 @@ func (c CaseB) candidates(k string) []string {
 	}
 	for i, op := range c.Ops {
 		switch {
-		case op.Op == "fill" && op.Kind != "shared" && inList(op.Keys, k):
+		case op.Op == "fill" && op.Kind != "shared" && !emptyFill(op.Kind) && inList(op.Keys, k):
 			out = append(out, fmt.Sprintf("F%d%s", i, k))
 		case op.Op == "assign" && op.Key == k:
 			out = append(out, fmt.Sprintf("S%d%s", i, k))
@@ -202,8 +206,19 @@ func structOf(vals map[string]string) reflect.Value {
 	return pv
 }
 
+// emptyFill reports whether the Fill kind passes no data at all.
+func emptyFill(kind string) bool {
+	return kind == "nil" || kind == "typed-nil-map" || kind == "empty-map"
+}
+
 func fillValue(kind string, vals map[string]string) any {
 	switch kind {
+	case "nil":
+		return nil // untyped nil
+	case "typed-nil-map":
+		return map[string]any(nil)
+	case "empty-map":
+		return map[string]any{}
 	case "struct":
 		return structOf(vals).Elem().Interface()
 	case "ptr":
@@ -338,6 +353,9 @@ func describeOp(i int, op Op, node int) string {
 	case "fill":
 		if op.Kind == "shared" {
 			return fmt.Sprintf("op %d: node%d.Fill(shared map #%d)", i, node, op.Pool)
+		}
+		if emptyFill(op.Kind) {
+			return fmt.Sprintf("op %d: node%d.Fill(%s)", i, node, op.Kind)
 		}
 		return fmt.Sprintf("op %d: node%d.Fill(%s with keys %v)", i, node, op.Kind, op.Keys)
 	case "assign":
@@ -480,7 +498,7 @@ func checkB(c CaseB) error {
 				t.Fill(pool[j]) // the same map object every time
 			} else {
 				for _, k := range op.Keys {
-					if inList(keysB, k) {
+					if inList(keysB, k) && !emptyFill(op.Kind) {
 						vs[k] = fmt.Sprintf("F%d%s", i, k)
 					}
 				}
@@ -581,7 +599,8 @@ func genHistory(t *rapid.T, rec *ev.Rec, avoidFM bool) CaseB {
 	// half of the histories concentrate on sharing: every Fill passes a shared map (mostly #0)
 	// and Fill/Assign are more frequent, so that one map object ends up in several live nodes
 	// and Assigns happen while it is shared
-	sharing := rapid.Bool().Draw(t, "sharing")
+	mode := rapid.SampledFrom([]string{"mixed", "mixed", "sharing", "sharing", "nofill", "nofill"}).Draw(t, "mode")
+	sharing := mode == "sharing"
 	opKinds := []string{"load", "load", "load", "new", "fill", "fill", "assign", "assign", "assign", "render", "get"}
 	if sharing {
 		opKinds = []string{"load", "load", "new", "fill", "fill", "fill", "fill", "assign", "assign", "assign", "render", "get"}
@@ -608,6 +627,42 @@ func genHistory(t *rapid.T, rec *ev.Rec, avoidFM bool) CaseB {
 			n = 8
 		}
 	}
+	if mode == "nofill" && rapid.IntRange(0, 3).Draw(t, "motif") > 0 {
+		// constructed opening: one template gets a Fill that passes no data (nil / typed nil map /
+		// empty map) and then an Assign; afterwards a sibling made from the untouched root is
+		// filled with data that lacks the assigned key; the random remainder follows
+		a := Op{Op: "new", Node: 0}
+		pageOf = append(pageOf, -1)
+		if !avoidFM && rapid.Bool().Draw(t, "a-loaded") {
+			a = Op{Op: "load", Node: 0, Page: rapid.IntRange(0, nPages-1).Draw(t, "page")}
+			pageOf[len(pageOf)-1] = a.Page
+		}
+		target := 1
+		if rapid.IntRange(0, 3).Draw(t, "on-root") == 0 {
+			target = 0 // the base template itself is re-filled with nothing
+		}
+		key := rapid.SampledFrom(keysB).Draw(t, "key")
+		c.Ops = append(c.Ops, a,
+			Op{Op: "fill", Node: target, Kind: rapid.SampledFrom([]string{"nil", "nil", "typed-nil-map", "empty-map"}).Draw(t, "kind")},
+			Op{Op: "assign", Node: target, Key: key})
+		b := Op{Op: "new", Node: 0}
+		pageOf = append(pageOf, -1)
+		if rapid.Bool().Draw(t, "b-loaded") {
+			b = Op{Op: "load", Node: 0, Page: rapid.IntRange(0, nPages-1).Draw(t, "page")}
+			pageOf[len(pageOf)-1] = b.Page
+		}
+		liveN += 2
+		var other []string
+		for _, k := range keysB {
+			if k != key && rapid.Bool().Draw(t, "other-"+k) {
+				other = append(other, k)
+			}
+		}
+		c.Ops = append(c.Ops, b, Op{Op: "fill", Node: 2, Kind: rapid.SampledFrom([]string{"map", "struct", "ptr", "empty-map", "nil"}).Draw(t, "kind"), Keys: other})
+		if n > 7 {
+			n = 7
+		}
+	}
 	for i := 0; i < n; i++ {
 		kind := rapid.SampledFrom(opKinds).Draw(t, "op")
 		op := Op{Op: kind, Node: rapid.IntRange(0, liveN-1).Draw(t, "node")}
@@ -623,11 +678,15 @@ func genHistory(t *rapid.T, rec *ev.Rec, avoidFM bool) CaseB {
 			if sharing {
 				op.Kind = "shared"
 			} else {
-				op.Kind = rapid.SampledFrom([]string{"shared", "shared", "map", "struct", "ptr"}).Draw(t, "kind")
+				kinds := []string{"shared", "shared", "map", "struct", "ptr", "nil", "typed-nil-map", "empty-map"}
+				if mode == "nofill" {
+					kinds = []string{"nil", "nil", "nil", "typed-nil-map", "empty-map", "map", "struct", "shared"}
+				}
+				op.Kind = rapid.SampledFrom(kinds).Draw(t, "kind")
 			}
 			if op.Kind == "shared" {
 				op.Pool = rapid.SampledFrom([]int{0, 0, 0, 1}).Draw(t, "pool")
-			} else {
+			} else if !emptyFill(op.Kind) {
 				op.Keys = genSubset(t, "fill-")
 			}
 		case "get":
@@ -662,8 +721,10 @@ func classifyB(c CaseB) (bool, []string) {
 		mutated bool // a Fill/Assign happened on it or an ancestor before now
 		loaded  bool
 		page    int
-		shared  int // index+1 of the shared map it was last filled with (0 = none)
+		shared  int  // index+1 of the shared map it was last filled with (0 = none)
+		nofill  bool // its last Fill passed no data (nil / typed nil map / empty map)
 	}
+	tainted := map[string]int{} // key -> node that assigned it after a Fill without data
 	nodes := []info{{parent: -1}}
 	nt := false
 	if c.NoCfg {
@@ -728,6 +789,28 @@ func classifyB(c CaseB) (bool, []string) {
 			}
 			if op.Op == "fill" {
 				cls["fill="+op.Kind] = true
+				nodes[ni].nofill = emptyFill(op.Kind)
+				if emptyFill(op.Kind) {
+					if !nodes[ni].loaded || len(c.pageKeys(nodes[ni].page)) == 0 {
+						cls["no-data-fill-on-node-without-front-matter"] = true
+					} else {
+						cls["no-data-fill-on-node-with-front-matter"] = true
+					}
+				}
+				keys := op.Keys
+				if op.Kind == "shared" {
+					keys = c.poolKeys(op.Pool)
+				} else if emptyFill(op.Kind) {
+					keys = nil
+				}
+				for k, by := range tainted {
+					if by != ni && !inList(keys, k) {
+						cls["fill-lacking-k-on-another-node-after-(no-data-fill+assign-k)"] = true
+						if !c.NoCfg {
+							cls["that-region-with-config-files-present"] = true
+						}
+					}
+				}
 				if op.Kind == "shared" {
 					nodes[ni].shared = op.Pool%max(len(c.Pool), 1) + 1
 					if also, _ := holders(ni); also {
@@ -741,6 +824,10 @@ func classifyB(c CaseB) (bool, []string) {
 				}
 			}
 			if op.Op == "assign" {
+				if nodes[ni].nofill {
+					cls["assign-after-no-data-fill"] = true
+					tainted[op.Key] = ni
+				}
 				if nodes[ni].shared != 0 {
 					cls["assign-after-shared-fill"] = true
 				}
